@@ -135,37 +135,7 @@ func checkC03(c *Check) {
 	settle := l.settleCore()
 
 	// ---- R1
-	for _, fn := range kfuncs {
-		for _, ss := range escrowStateStores(l, fn) {
-			c.Analysed(fnName(fn))
-			objSym := Sym(ss.fa.X)
-			inst := ss.typ + ".State=" + ss.kname + " in " + fnName(fn) + " on " + objSym
-			// fresh composite literal persisted directly is handled by the same predicate
-			pred := func(in ssa.Instruction) bool {
-				return isPersistOf(in, func(v ssa.Value) bool { return Sym(v) == objSym }, 0)
-			}
-			ok := true
-			detail := ""
-			rets := successReturns(fn)
-			n := 0
-			for _, r := range rets {
-				// only returns reachable from the store
-				if !reachableFrom(ss.st, r) {
-					continue
-				}
-				n++
-				if !mustPassFrom(fn, ss.st, r, pred) {
-					ok = false
-					detail = "a path from the state assignment to the nil-error return at " + l.Pos(r.Pos()) + " does not persist the object (callees that skip the write on some success path do not count)"
-				}
-			}
-			if n == 0 {
-				ok = false
-				detail = "no success return reachable from assignment"
-			}
-			c.Ob("R1", inst, ss.st.Pos(), ok, detail)
-		}
-	}
+	c.statePersistedRule("R1", kfuncs)
 	c.Floor("R1", 7)
 
 	// ---- R2
@@ -773,4 +743,42 @@ func lookupKeys(v ssa.Value, depth int) string {
 		return out
 	}
 	return ""
+}
+
+// statePersistedRule: every assignment of a state constant to an escrow record reaches a persistence of that object on
+// every path to a nil-error return (shared: C03-R1; C02-R7 and C05-R4, since a close that is not stored keeps the
+// payment metering and leaves market and escrow records disagreeing).
+func (c *Check) statePersistedRule(rule string, kfuncs []*ssa.Function) {
+	l := c.L
+	for _, fn := range kfuncs {
+		for _, ss := range escrowStateStores(l, fn) {
+			c.Analysed(fnName(fn))
+			objSym := Sym(ss.fa.X)
+			inst := ss.typ + ".State=" + ss.kname + " in " + fnName(fn) + " on " + objSym
+			// fresh composite literal persisted directly is handled by the same predicate
+			pred := func(in ssa.Instruction) bool {
+				return isPersistOf(in, func(v ssa.Value) bool { return Sym(v) == objSym }, 0)
+			}
+			ok := true
+			detail := ""
+			rets := successReturns(fn)
+			n := 0
+			for _, r := range rets {
+				// only returns reachable from the store
+				if !reachableFrom(ss.st, r) {
+					continue
+				}
+				n++
+				if !mustPassFrom(fn, ss.st, r, pred) {
+					ok = false
+					detail = "a path from the state assignment to the nil-error return at " + l.Pos(r.Pos()) + " does not persist the object (callees that skip the write on some success path do not count)"
+				}
+			}
+			if n == 0 {
+				ok = false
+				detail = "no success return reachable from assignment"
+			}
+			c.Ob(rule, inst, ss.st.Pos(), ok, detail)
+		}
+	}
 }
